@@ -307,6 +307,24 @@ def st_nullable_lead_pattern(draw):
 
 
 @st.composite
+def st_many_alternatives(draw):
+    """a symbol with 6-7 adjacent alternatives that share a one-terminal prefix (k a | k b | ... - a statement with many
+    forms): conflict-free once factorised, whatever the parser does with such a large group"""
+    ts = draw(st.permutations([k for k in gk.TERMINAL_KINDS if not k.startswith("KW_")]))
+    k, rest = ts[0], list(ts[1:])
+    n = draw(st.integers(6, min(7, len(rest))))
+    alts = []
+    for t in rest[:n]:
+        alts.append([k, t] + ([draw(st.sampled_from(rest))] if draw(st.booleans()) else []))
+    if draw(st.booleans()):
+        alts.append([rest[0]])          # one alternative outside the group
+    prods = {"N1": alts}
+    prods["N0"] = [["N1", k]] if draw(st.booleans()) else [["N1"]]
+    order = draw(st.permutations(sorted(prods)))
+    return {"prods": {a: prods[a] for a in order}, "start": "N0", "terms": list(ts)}
+
+
+@st.composite
 def st_follow_cycle(draw):
     """LL(1) grammars whose FOLLOW dependencies form a cycle through two or three different symbols (mutual tail
     recursion: N1 -> a N2 | empty ; N2 -> b N1 | empty) entered from outside at one or two members: every member of the
@@ -354,7 +372,7 @@ def st_follow_chain(draw):
 
 @st.composite
 def st_case(draw):
-    dom = draw(st.sampled_from(["A", "A", "A", "B", "B", "F", "G"]))
+    dom = draw(st.sampled_from(["A", "A", "A", "B", "B", "F", "G", "H"]))
     if dom == "A":
         g = draw(st_ll1_grammar())
     elif dom == "F":
@@ -362,6 +380,8 @@ def st_case(draw):
         g = draw(g())
     elif dom == "G":
         g = draw(st_follow_chain())
+    elif dom == "H":
+        g = draw(st_many_alternatives())
     else:
         g = draw(gk.st_grammar(max_nt=4, max_alts=draw(st.sampled_from([3, 3, 5, 6])), max_len=3,
                                n_terms=draw(st.integers(2, 3))))
